@@ -431,6 +431,24 @@ pub fn mk_config(ps: &PredSpec, vm: &str, debug: bool, rec: Recorder, verbose: b
                     if !st.tracks {
                         continue;
                     }
+                    // C09: the event log of the process in this state tells the message deliveries the process itself recorded
+                    {
+                        use anysystem::ProcessEvent as PE;
+                        let mut fwk: Vec<Vec<u64>> = vec![];
+                        for e in &pe.event_log {
+                            match &e.event {
+                                PE::MessageReceived { msg, src, .. } => fwk.push(crate::script_proc::msg_key(vec![1, num(src)], msg)),
+                                _ => {}
+                            }
+                        }
+                        // (in model checking the log records the network messages a process received and its actions,
+                        // not timer firings and local messages)
+                        let own: Vec<&Vec<u64>> = st.hist.iter().map(|h| &h.key).filter(|k| k[0] == 1).collect();
+                        if fwk.len() != own.len() || fwk.iter().zip(own.iter()).any(|(a, b)| a != *b) {
+                            let k = fwk.iter().zip(own.iter()).position(|(a, b)| a != *b).unwrap_or(fwk.len().min(own.len()));
+                            XTM.with(|x| x.borrow_mut().push(format!("XLOG {} {} entries log={} own={} first_difference_at={}", idx, num(pn), fwk.len(), own.len(), k)));
+                        }
+                    }
                     let mut fw: Vec<u64> = pe.pending_timers.keys().map(|k| num(k)).collect();
                     fw.sort();
                     let own: Vec<u64> = st.ptimers.iter().cloned().collect();
